@@ -21,6 +21,9 @@ static inline void pool_init(struct pool_head *head)
     slist_init(&head->free_blocks);
 }
 
+/// Feed the zone [zone, zone + size) to the pool as blocks of elemsz bytes.
+/// Every free block holds the list link, so elemsz must be at least
+/// sizeof(struct slist_head) and size a multiple of elemsz.
 static inline void pool_engage(struct pool_head *pool, void *zone, size_t size,
                                size_t elemsz)
 {
